@@ -729,7 +729,17 @@ def check(run):
     with common.Lock():
         phases["lock_wait"] = round(time.time() - t0, 1)
         res = common.build_props("Props/C15.v")
-        run.add_build(res, "make -C coq Props/C15.vo (coqc 8.16.1, full .vo) + Print Assumptions per theorem")
+        run.add_build(res, "make -C coq Props/C15.vo Props/C15Src.vo (coqc 8.16.1, full .vo) + Print Assumptions per theorem")
+        # the source-text tie: the digit logic of utils.py as programs of Model/PyTs.v, and the obligations on them
+        try:
+            import tr_timestamp_src
+            text, srcinfo = tr_timestamp_src.translate(common.REPO, common.PY, common.VERIF)
+            common.write_if_changed(os.path.join(common.COQ, "Gen", "TimestampSrc.v"), text)
+            res2 = common.build_props("Props/C15Src.v")
+            run.add_build(res2, "make -C coq Props/C15.vo Props/C15Src.vo (coqc 8.16.1, full .vo) + Print Assumptions per theorem")
+        except Exception as e:  # noqa: BLE001
+            run.broken.append(Broken("translator", "tr_timestamp_src", {"error": "%s: %s" % (type(e).__name__, str(e)[-800:])}))
+            run.coverage["obligations"] += len(common.theorems_in("Props/C15Src.v"))
     phases["build"] = round(time.time() - t0, 1)
     V, probes, probe_res = select_variant(run)
     ym, nm = V.ym, V.nm
